@@ -13,6 +13,7 @@ import (
 	"strings"
 	"sync"
 
+	units "github.com/docker/go-units"
 	"github.com/openebs/jiva/types"
 )
 
@@ -267,7 +268,24 @@ func (b *Backend) SetCheckpoint(n string) error {
 	b.w.mu.Unlock()
 	return nil
 }
-func (b *Backend) Resize(name, size string) error { return fail(b.note("Resize")) }
+// Resize: the stand-in reads the size the way replica.Replica.Resize does and keeps it
+func (b *Backend) Resize(name, size string) error {
+	if err := fail(b.note("Resize")); err != nil {
+		return err
+	}
+	n, err := units.RAMInBytes(size)
+	if err != nil {
+		return err
+	}
+	r := b.w.rep(b.Addr)
+	b.w.mu.Lock()
+	defer b.w.mu.Unlock()
+	if r.Size > n {
+		return fmt.Errorf("Previous size %d is greater than %d", r.Size, n)
+	}
+	r.Size = n
+	return nil
+}
 func (b *Backend) Size() (int64, error) {
 	s := b.w.log(b.Addr, "Size")
 	if s == "err" {
